@@ -361,7 +361,15 @@ def compose(rng, feats, top=None, unreachable=False, inline=False):
         head = [Rule("Top", [Alt([R("Items")])]), Rule("Items", [Alt([R("Items"), R("Item")]), Alt([R("Item")])],
                                                       ann="vec")]
     rules = head + [Rule("Item", item_alts)] + rules
-    if unreachable:
+    if unreachable == "shared":
+        # an unreachable rule built only from terminals the reachable part uses (no unreachable terminal exists)
+        used = [x.sym for r in rules for a in r.alts for x in a.refs if x.sym in CONTENT]
+        t1 = used[0] if used else "End"
+        t2 = used[-1] if used else "End"
+        rules.append(Rule("Orphan", [Alt([R(t1), R(t2)]), Alt([R("OrphanKid")])]))
+        rules.append(Rule("OrphanKid", [Alt([R("End"), R(t1)])]))
+        tags.append("unreachable-shared-terminals")
+    elif unreachable:
         rules.append(Rule("Orphan", [Alt([R("OrphanKid"), R("Num")]), Alt([R("KOrphan")])]))
         rules.append(Rule("OrphanKid", [Alt([R("Up")])]))
         strterms["KOrphan"] = "orphan"
@@ -374,7 +382,7 @@ def random_ag(rng, nfeat=None, exclude=()):
     nfeat = nfeat or rng.choice([1, 2, 3, 3, 4])
     pool = [f for f in FEATURES if f not in exclude]
     feats = [rng.choice(pool) for _ in range(nfeat)]
-    return compose(rng, feats, unreachable=rng.random() < 0.25, inline=rng.random() < 0.3)
+    return compose(rng, feats, unreachable=rng.choice([False, False, False, False, True, "shared"]), inline=rng.random() < 0.3)
 
 
 def feature_cover(rng, per_feature=2, exclude=()):
@@ -395,6 +403,10 @@ def handwritten():
     def add(shape, text, inputs):
         H.append((shape, text, inputs))
 
+    add("unreachable-shared-terminals", "S: Item+;\nItem: Id | Num;\nPair: Id Num;\nterminals\nId: /[a-z]+/;\nNum: /\\d+/;\n",
+        ["a 1 b", "7"])
+    add("unreachable-own-terminals", "S: Item+;\nItem: Id | Num;\nPair: Id Up;\nterminals\nId: /[a-z]+/;\nNum: /\\d+/;\n"
+        "Up: /[A-Z]+/;\n", ["a 1 b", "7"])
     add("vec-left", "@vec A: A B | B;\nB: Num;\nterminals\nNum: /\\d+/;\n", ["1 2 3", "7", "4 5"])
     add("vec-right", "@vec A: B A | B;\nB: Num;\nterminals\nNum: /\\d+/;\n", ["1 2 3", "7", "4 5"])
     add("vec-left-direct", "@vec A: A Num | Num;\nterminals\nNum: /\\d+/;\n", ["1 2 3", "9"])
